@@ -148,6 +148,8 @@ var c03Alphabet = [][]string{
 	{"MATCH", "*", "WITH", "PRODUCTS", "FROM", "missing"},
 	{"MATCH", "*", "WITH", "MATERIALS", "FROM", "item"},
 	{"ALLOW"}, {"FOO", "*"}, {"MATCH", "*", "WITH", "PRODUCTS", "dst"}, {"MATCH", "*", "WITH", "FOO", "FROM", "dst"}, {},
+	{"MATCH", "*", "WITH", "PRODUCTS", "FROM", "dst", "IN", "sub"}, {"MATCH", "*", "IN", "sub", "WITH", "PRODUCTS", "FROM", "dst", "IN", "sub"},
+	{"DISALLOW", "\\a"}, {"ALLOW", "sub/\\a"}, {"DISALLOW", "\\b"},
 }
 
 var c03ReducedAlphabet = []int{0, 3, 6, 7, 10, 12, 14, 16, 19, 21, 22, 25, 29}
@@ -280,7 +282,16 @@ func c03GenPattern(t *rapid.T, paths []string) string {
 	atoms := []string{"*", "?", "a", "b", "c", "x", ".", "[ab]", "[^a]", "[a-c]", "\\*", "d1", "d2"}
 	for i := 0; i < 8; i++ {
 		var p string
-		switch rapid.IntRange(0, 4).Draw(t, "patkind") {
+		switch rapid.IntRange(0, 5).Draw(t, "patkind") {
+		case 5:
+			// a literal path with one character escaped (no other metacharacter)
+			lp := rapid.SampledFrom(paths).Draw(t, "escapedpath")
+			i := rapid.IntRange(0, len(lp)-1).Draw(t, "escapeat")
+			if lp[i] != '/' {
+				p = lp[:i] + "\\" + lp[i:]
+			} else {
+				p = lp
+			}
 		case 0:
 			p = "*"
 		case 1:
@@ -321,7 +332,7 @@ func c03GenRule(t *rapid.T, paths []string, names []string) []string {
 		return p
 	}
 	pat := c03GenPattern(t, paths)
-	switch rapid.IntRange(0, 13).Draw(t, "ruletype") {
+	switch rapid.IntRange(0, 14).Draw(t, "ruletype") {
 	case 0, 1:
 		return []string{kw("ALLOW"), pat}
 	case 2, 3:
@@ -342,6 +353,27 @@ func c03GenRule(t *rapid.T, paths []string, names []string) []string {
 		return []string{kw("MATCH"), pat, kw("WITH"), kw(rapid.SampledFrom([]string{"MATERIALS", "PRODUCTS"}).Draw(t, "dt")), kw("IN"), prefix("dstprefix"), kw("FROM"), rapid.SampledFrom(names).Draw(t, "dst")}
 	case 11:
 		return []string{kw("MATCH"), pat, kw("IN"), prefix("srcprefix"), kw("WITH"), kw(rapid.SampledFrom([]string{"MATERIALS", "PRODUCTS"}).Draw(t, "dt")), kw("IN"), prefix("dstprefix"), kw("FROM"), rapid.SampledFrom(names).Draw(t, "dst")}
+	case 13:
+		// a valid rule with tokens appended, removed or swapped (the reference decides what it is)
+		base := c03GenRule(t, paths, names)
+		switch rapid.IntRange(0, 3).Draw(t, "perturb") {
+		case 0:
+			extra := rapid.SliceOfN(rapid.SampledFrom([]string{"IN", "d1", "FROM", "dst", "WITH", "PRODUCTS", "x"}), 1, 4).Draw(t, "extra")
+			return append(append([]string{}, base...), extra...)
+		case 1:
+			if len(base) > 1 {
+				i := rapid.IntRange(0, len(base)-1).Draw(t, "dropat")
+				return append(append([]string{}, base[:i]...), base[i+1:]...)
+			}
+		case 2:
+			if len(base) > 2 {
+				i := rapid.IntRange(1, len(base)-1).Draw(t, "swapat")
+				out := append([]string{}, base...)
+				out[i-1], out[i] = out[i], out[i-1]
+				return out
+			}
+		}
+		return base
 	case 12:
 		// malformed
 		return rapid.SampledFrom([][]string{{}, {"ALLOW"}, {"ALLOW", "a", "b"}, {"PERMIT", "*"}, {"MATCH", "*"}, {"MATCH", "*", "WITH", "PRODUCTS", "dst"},
@@ -357,9 +389,15 @@ func c03GenArts(t *rapid.T, label string, paths []string) map[string]map[string]
 		if rapid.IntRange(0, 2).Draw(t, label+"present") == 0 {
 			continue
 		}
-		h := map[string]string{"sha256": rapid.SampledFrom([]string{"aa", "bb"}).Draw(t, label+"digest")}
-		if rapid.IntRange(0, 4).Draw(t, label+"twoalgs") == 0 {
+		h := map[string]string{}
+		switch rapid.IntRange(0, 5).Draw(t, label+"algs") {
+		case 0:
+			h["sha512"] = rapid.SampledFrom([]string{"aa", "cc"}).Draw(t, label+"digest2")
+		case 1:
+			h["sha256"] = rapid.SampledFrom([]string{"aa", "bb"}).Draw(t, label+"digest")
 			h["sha512"] = rapid.SampledFrom([]string{"cc", "dd"}).Draw(t, label+"digest2")
+		default:
+			h["sha256"] = rapid.SampledFrom([]string{"aa", "bb"}).Draw(t, label+"digest")
 		}
 		out[p] = h
 	}
